@@ -70,6 +70,7 @@ func (e *Engine) verifyFunc(fn *ssa.Function) (u *Unit) {
 		return u
 	}
 	ct := e.contracts[funcName(fn)]
+	u.servesRequest = servesRequest(fn)
 	st := &State{h: map[string]string{}}
 	st.alloc = u.declare("alloc0", "Int")
 	u.alloc0 = st.alloc
@@ -354,7 +355,47 @@ func (fr *frame) anchorLocal(name string, at ssa.Instruction, st *State) *Val {
 			return v
 		}
 	}
+	// The block that declared the local has been moved into a helper which has returned by now: the helper's local of that
+	// name, as it stands at the anchor (a variable whose address was taken is read from the state at the anchor). Only
+	// when exactly one completed helper has such a local.
+	if strings.HasPrefix(name, "reached:") {
+		return nil
+	}
+	var found *Val
+	n := 0
+	var walk func(f *frame)
+	walk = func(f *frame) {
+		for _, d := range f.done {
+			if ret := d.lastReturn(); ret != nil {
+				if v := d.localNamed(strings.TrimSuffix(name, "?"), ret, st); v != nil {
+					found = v
+					n++
+					fr.u.rebinds = append(fr.u.rebinds, fmt.Sprintf("local %s of an anchored assertion found in the completed helper %s (inlined: no contract of its own)", name, funcName(d.fn)))
+				}
+			}
+			walk(d)
+		}
+	}
+	for f := fr; f != nil; f = f.parent {
+		walk(f)
+	}
+	if n == 1 {
+		return found
+	}
 	return nil
+}
+
+// lastReturn: the return statement that is last in the source (where a helper that ran to its end leaves).
+func (fr *frame) lastReturn() ssa.Instruction {
+	var best ssa.Instruction
+	for _, b := range fr.fn.Blocks {
+		for _, in := range b.Instrs {
+			if r, ok := in.(*ssa.Return); ok && (best == nil || r.Pos() > best.Pos()) {
+				best = r
+			}
+		}
+	}
+	return best
 }
 
 func (fr *frame) callSiteAsserts(call ssa.CallInstruction, args []*Val, st *State, reach string) {
@@ -1030,4 +1071,20 @@ func (fr *frame) returnSiteAsserts(x *ssa.Return, st *State, reach string) {
 		fr.u.oblige(fr.obName("assert", cl.Label), "assert", cl.Tags, reach, t, fr.pos(x.Pos()), cl.Text)
 		fr.u.assertsSeen[cl.Label] = true
 	}
+}
+
+// servesRequest: the function takes the request or the response writer - it is one of the things that run once per
+// request, on as many goroutines as there are requests.
+func servesRequest(fn *ssa.Function) bool {
+	for _, p := range fn.Params {
+		t := p.Type()
+		if pt, ok := t.(*types.Pointer); ok {
+			t = pt.Elem()
+		}
+		if n, ok := t.(*types.Named); ok && n.Obj().Pkg() != nil && n.Obj().Pkg().Path() == "net/http" &&
+			(n.Obj().Name() == "ResponseWriter" || n.Obj().Name() == "Request") {
+			return true
+		}
+	}
+	return false
 }
